@@ -70,6 +70,33 @@ func (x *ringInt) NonZeroSlots() int {
 	return n
 }
 
+// RingBuffer[struct{}]: elements of size zero (a token counter); only counts, errors and panics can be observed
+type ringUnit struct {
+	r   container.RingBuffer[struct{}]
+	pos func() (int, int, int)
+}
+
+func newRingUnit(c int) ringObj {
+	rb := container.NewRingBuffer[struct{}](uint(c))
+	return &ringUnit{r: rb, pos: func() (int, int, int) { b, r, w := container.VerifRingRaw(rb); return len(b), r, w }}
+}
+func (x *ringUnit) Write(v int) error { return x.r.Write(struct{}{}) }
+func (x *ringUnit) Read() (int, error) {
+	_, err := x.r.Read()
+	return 0, err
+}
+func (x *ringUnit) ReadN(n int) []int {
+	d := make([]struct{}, n)
+	return make([]int, x.r.ReadN(d))
+}
+func (x *ringUnit) Skip(n int) int       { return x.r.Skip(n) }
+func (x *ringUnit) At(i int) int         { x.r.At(i); return 0 }
+func (x *ringUnit) Clear()               { x.r.Clear() }
+func (x *ringUnit) Len() int             { return x.r.Len() }
+func (x *ringUnit) Cap() int             { return x.r.Cap() }
+func (x *ringUnit) NonZeroSlots() int    { return 0 }
+func (x *ringUnit) Pos() (int, int, int) { return x.pos() }
+
 type ringPtr struct {
 	r   container.RingBuffer[*int]
 	raw func() []*int
